@@ -22,7 +22,12 @@ extern "C" int randomx_blake2b(void* out, size_t outlen, const void* in, size_t 
 static void make_stream(uint64_t seed, int s, unsigned& styleOut) {
 	vh::Rng rng(seed * 1000003ULL + (uint64_t)s * 7919ULL + 17);
 	static const uint8_t special[] = { 0, 0, 0, 1, 2, 4, 8, 16, 32, 64, 128, 255, 254, 3, 5, 127 };
-	int style = s % 10; styleOut = style;
+	int style = s % 10;
+	// streams with an index from 100000 on (style 10): uniform bytes, and in every block a run of 8-27 bytes with period 4 and at most one non-zero byte 2^j per
+	// period - any 32-bit word read inside the run, at any alignment, is zero or a power of two (the high bit 2^31 more often than the others:
+	// it is the one word whose sign matters), so the reciprocal-divisor redraw of the generator meets every no-op word
+	if (s >= 100000) style = 10;
+	styleOut = style;
 	unsigned skew = style == 0 ? 0 : (style == 1 ? 30 : (style == 2 ? 60 : (style == 3 ? 85 : (style == 4 ? 95 : 100))));
 	uint8_t small[4]; for (auto& x : small) x = (uint8_t)rng.next(); int nsmall = 2 + rng.below(3);
 	uint8_t pat[16]; for (auto& x : pat) x = (uint8_t)rng.next(); int period = 1 + rng.below(16);
@@ -39,6 +44,8 @@ static void make_stream(uint64_t seed, int s, unsigned& styleOut) {
 			default: x = rng.below(100) < skew ? special[rng.below(16)] : (uint8_t)rng.next();
 			}
 		}
+		if (style == 10) { int runLen = 8 + (int)rng.below(20), start = (int)rng.below(64 - runLen + 1), j = rng.below(2) ? 7 : (int)rng.below(8), phase = (int)rng.below(4); bool zero = rng.below(8) == 0;
+			for (int i = start; i < start + runLen; ++i) blk[i] = (!zero && (i % 4) == phase) ? (uint8_t)(1u << j) : 0; }
 		g_blocks.push_back(blk);
 	}
 }
